@@ -381,7 +381,7 @@ var c20Outcomes = []string{
 	"w5:500:0", "h200.w5.h404:0:0", "h404.h200.w1:0:0", "w1.h500.w1:502:0",
 	// bodies sent the way the static file server / proxy send them
 	"c5:0:0", "c70000:200:0", "n9:0:0", "s5:0:0", "s80000:0:0", "h200.s12:0:0", "h404.c7:0:0", "c3.w4.n2:0:0",
-	"s0:0:0", "c0:0:0", "c5:500:0", "c5::1x", "w2.f.c40000:0:0",
+	"s0:0:0", "c0:0:0", "c0.h302:404:0", "n0.h404.w3:0:0", "w0.h404:0:0", "c5:500:0", "c5::1x", "w2.f.c40000:0:0",
 	// Flush sends the header
 	"f.w3:0:0", "f:0:0", "f.h404.w2:0:0", "h201.f.n6:0:0", "f:404:0",
 }
